@@ -21,15 +21,15 @@ class Ctx(object):
         self.stats = {"functions_run": 0, "paths": 0, "calls_resolved": 0, "calls_unresolved": 0, "calls_approx": 0, "truncated": 0}
         self.analysed = set()
 
-    def paths(self, fi, self_cls=None, depth=None, **cfgkw):
-        """memoised path enumeration"""
+    def paths(self, fi, self_cls=None, depth=None, pre=None, **cfgkw):
+        """memoised path enumeration.  pre: tuple of (term, value) pairs = initial heap"""
         depth = self.depth if depth is None else depth
-        key = (fi.key, self_cls.key if self_cls else None, depth, tuple(sorted((k, id(v) if callable(v) else v) for k, v in cfgkw.items())))
+        key = (fi.key, self_cls.key if self_cls else None, depth, pre, tuple(sorted((k, id(v) if callable(v) else v) for k, v in cfgkw.items())))
         if key in self._cache:
             return self._cache[key]
         cfg = Config(maxdepth=depth, **cfgkw)
         it = Interp(self.prog, self.types, cfg)
-        ps = it.run(fi, self_cls)
+        ps = it.run(fi, self_cls, heap=dict(pre) if pre else None)
         self.stats["functions_run"] += 1
         self.stats["paths"] += len(ps)
         self.stats["calls_resolved"] += it.resolved
